@@ -8,6 +8,7 @@
   enter/leave events, every element once).
 -/
 import CstModel.Proofs.Nav
+import CstModel.Generated.Forwarders
 namespace Cst.C03
 
 open Red
@@ -350,5 +351,43 @@ example :
     walkN g [] 20 (.enter []) =
       [.enter [], .enter [0], .leave [0], .enter [1], .leave [1], .enter [2], .enter [2, 0], .leave [2, 0], .leave [2], .leave []] := by
   decide +kernel
+
+
+/-! ### the wrapper layer (`element.rs`, `resolved.rs`) is the identity the model takes it for
+
+`tools/extract_forwarders.py` translates every `pub fn` of the four element enums and of the two resolved wrappers
+into `Generated/Forwarders.lean` on every run.  The theorems below are re-checked against that table: each
+element-level method dispatches on node / token to the method of the same name (with the three documented
+exceptions for tokens: `parent` is total, `ancestors` starts at the parent, a token is its own first / last token),
+and each navigation or query method of `ResolvedNode` / `ResolvedToken` is one call of the method of the same
+name on the wrapped handle with the same arguments. -/
+
+theorem forwarders_elem_ok : Fwd.ElemTableOk Fwd.Generated.elemForwarders := by decide
+
+theorem forwarders_resolved_ok : Fwd.ResTableOk Fwd.Generated.resolvedForwarders := by decide
+
+/-- the three token-side exceptions are what the model's path functions do on the path of a token:
+    a token is its own first and last token … -/
+theorem elem_token_first_last (r : Red) (p : Path) (h : r.isToken p = true) :
+    r.elemFirstToken p = Fwd.Arm.sem1 (fun r p => r.elemFirstToken p) .someSelf r p ∧
+    r.elemLastToken p = Fwd.Arm.sem1 (fun r p => r.elemLastToken p) .someSelf r p := by
+  have hf : walkFuel r p = (walkFuel r p - 1) + 1 := by
+    unfold walkFuel; cases r.green p <;> simp
+  constructor
+  · unfold Red.elemFirstToken; rw [hf]; simp [Red.firstTokenGo, h, Fwd.Arm.sem1]
+  · unfold Red.elemLastToken; rw [hf]; simp [Red.lastTokenGo, h, Fwd.Arm.sem1]
+
+/-- … and its chain of ancestors is that of its parent (the parent included), while a node's starts at itself -/
+theorem elem_token_ancestors (r : Red) (p : Path) (h : r.isToken p = true) :
+    r.ancestors p = (match Red.parent p with | some q => Red.ancestorsOf q (q.length + 1) | none => []) := by
+  unfold Red.isToken at h
+  unfold Red.ancestors
+  cases hg : r.green p with
+  | none => simp [hg] at h
+  | some g => simp [hg] at h ⊢; simp [h]; rfl
+
+/-- without the same-name discipline the identification fails: a table in which `next_sibling_or_token` of the
+    resolved token forwards to another method is rejected -/
+example : ¬ Fwd.ResTableOk [⟨"ResolvedToken", "next_sibling_or_token", .other "self.syntax.prev_sibling_or_token()"⟩] := by decide
 
 end Cst.C03
